@@ -129,6 +129,11 @@ fn ours_to_ref(ctx: &Ctx, idx: u64, r: &mut Rng) -> Vec<CaseOut> {
     let mut dr = Rng::new(r.next_u64() ^ idx);
     let data = gen::gen_data(&mut dr, fam, len);
     let cname = spec.c.name();
+    // trigger tag of the known BCJWriter limitation (here: a BCJ filter behind another BCJ filter)
+    let cname = match &spec.c {
+        Container::Xz { filters, .. } if c02::bcj_multi_write_exposed(filters, 1) => "xz[bcj-filter+multi-write]",
+        _ => cname,
+    };
     let o = &spec.o;
     let in_domain = !(spec.c.is_lzma1() && o.lc + o.lp > 4);
     let (chain, chk) = match &spec.c {
